@@ -42,12 +42,37 @@ type Stats struct {
 	Capped    bool // MaxExec or deadline cut the search
 	MaxDepth  int
 	Decisions int
+	Deadlocks int
 }
 
 // RunOnce executes body once under the scheduler, replaying prefix and taking
 // default choices afterwards.
-func RunOnce(t *testing.T, cfg Config, prefix []int, verbose bool, body func(s *Sched)) *Exec {
-	x := &Exec{}
+func RunOnce(t *testing.T, cfg Config, prefix []int, verbose bool, body func(s *Sched)) (x *Exec) {
+	x = &Exec{}
+	defer func() {
+		// A deadlocked execution leaves its threads parked for good, so the bubble
+		// cannot drain and synctest panics when the root returns. The execution's
+		// result is already recorded in x; the parked goroutines are leaked.
+		if r := recover(); r != nil {
+			if x.Deadlock && strings.Contains(fmt.Sprint(r), "deadlock") {
+				x.Choices = make([]int, len(x.Trace))
+				for i, d := range x.Trace {
+					x.Choices[i] = d.C
+				}
+				return
+			}
+			panic(r)
+		}
+	}()
+	runBubble(t, cfg, prefix, verbose, body, x)
+	x.Choices = make([]int, len(x.Trace))
+	for i, d := range x.Trace {
+		x.Choices[i] = d.C
+	}
+	return x
+}
+
+func runBubble(t *testing.T, cfg Config, prefix []int, verbose bool, body func(s *Sched), x *Exec) {
 	synctest.Test(t, func(t *testing.T) {
 		s := newSched(prefix)
 		s.Verbose = verbose
@@ -76,11 +101,6 @@ func RunOnce(t *testing.T, cfg Config, prefix []int, verbose bool, body func(s *
 			x.Diverged = fmt.Sprintf("replay prefix has %d decisions but execution made only %d", len(prefix), len(s.Trace))
 		}
 	})
-	x.Choices = make([]int, len(x.Trace))
-	for i, d := range x.Trace {
-		x.Choices[i] = d.C
-	}
-	return x
 }
 
 // Explore runs the deviation-bounded DFS. after is called for every execution.
@@ -121,6 +141,12 @@ func Explore(t *testing.T, cfg Config, body func(s *Sched), after func(x *Exec))
 			t.Fatalf("divergence: %s", x.Diverged)
 		}
 		st.Execs++
+		if x.Deadlock {
+			st.Deadlocks++
+			if st.Deadlocks >= 100 {
+				st.Capped = true
+			}
+		}
 		st.Decisions += len(x.Trace)
 		if len(x.Trace) > st.MaxDepth {
 			st.MaxDepth = len(x.Trace)
